@@ -34,13 +34,35 @@ Theorems (Property.v; all closed under the global context):
                          attributes; repaired in /repo by 5e4600e, model and theorem changed in the same step;
                          the probe below now expects nothing to survive.)
   C19_noncascade_breaks  (documented behaviour, not a finding) remove without cascade leaves a dangling ref
+Deepening round (2026-09-26):
+  C19_deser_ser_id       serialization is now an explicit proto (Model.ser_model: ModelProto.configuration +
+                         device_configurations of every NodeProto at every depth, by name) and an explicit
+                         deserializer (Model.deser: names -> objects through the scope stack / the deserialized
+                         configurations); deser h (ser_model h) = h on DevInv states in the domain, IR >= 11;
+                         roundtrip := deser . ser_model.  New correspondence stream "to_proto_compared": the real
+                         ir.to_proto(model) output is compared with ser_model after every step where the model is
+                         in the round-trip domain (only when it differs from the previous one).
+  Shape edits            Value.shape = ... is an op (OSetRank: the record of the value is replaced everywhere).
+                         The invariant is proved once for a "rank view" (Proofs.Gen): identity view = DevInv,
+                         unknown view = DevInvW (everything except "axes inside the current rank / distinct after
+                         normalisation"; recorded axes pairwise distinct as written).
+    C19_invW_reachable     DevInvW along every history that edits shapes freely
+    C19_shape_edit_keeps_inv  DevInv survives a shape edit iff the new rank keeps the recorded axes valid
+                           (setrank_ok; now a clause of ops_ok, so C19_inv_reachable covers such edits)
+    C19_check_weak         on DevInvW states the library's check reports at most axis messages (kinds 7, 8)
+    C19_shape_edit_unspecified  witness that it does report them (rank 2 -> 1: axes -1 and 0 coincide)
+                         Histories with i % 4 == 2 interleave set_rank ops (oracle: axes clause replaced by "recorded
+                         axes distinct as written" after the first shape edit).  Function inputs are not edited
+                         (FunctionProto does not carry their shapes).
+  Case files: "nodes unchanged" and unchanged names are abbreviated (Model.obs_agree compares with the state before
+  the op), which halved their size.
 Reading of the English (weaker reading where ambiguous):
   * "registered on its model": the node configuration's ModelConfiguration object `is` an element of
     model.device_configurations.
   * op alphabet of the invariant theorem (ops_ok): shard/set_pipeline_stage use a configuration that is
     registered at that moment and device indices inside range(num_devices); remove_device_configuration
-    is used with cascade=True; shapes of values are never edited (rank is an immutable attribute of the
-    modelled value).  Outside that alphabet the model is still faithful (the correspondence exercises it in
+    is used with cascade=True; a shape edit of a sharded value keeps its recorded axes valid (setrank_ok) — for
+    arbitrary shape edits see DevInvW above.  Outside that alphabet the model is still faithful (the correspondence exercises it in
     the "malformed" histories) but DevInv's configuration/device clauses are not claimed.
   * "library's check reports nothing": for states whose sharded values have non-empty names
     (names_nonempty); with an empty name the check reports exactly the empty-name message and
